@@ -46,9 +46,17 @@ func init() {
 		{Pkg: "github.com/notaryproject/notation-plugin-framework-go/plugin", Type: "Plugin", Nilable: true, Concrete: ".../plugin.CLIPlugin"},
 		{Pkg: ".../plugin", Func: "(*CLIManager).Get"},
 
-		// refused; kept because the reasons document what is tied to the code by the
-		// correspondence harness only:
-		// fs.WalkDir / filepath.WalkDir with the SkipDir protocol (not the Callback contract)
+		// listing and the scan of an install source: fs.WalkDir / filepath.WalkDir (oracle option
+		// Walk: the oracle supplies the tree the walk sees, GoLib.walk_dir is io/fs/walk.go)
+		{Pkg: "io/fs", Type: "DirEntry", Opaque: true, Nilable: true},
+		{Pkg: "io/fs", Func: "DirEntry.Type", Oracle: true},
+		{Pkg: "io/fs", Func: "DirEntry.Name", Oracle: true},
+		{Pkg: "io/fs", Func: "DirEntry.IsDir", Oracle: true},
+		{Pkg: "io/fs", Func: "DirEntry.Info", Oracle: true},
+		{Pkg: "io/fs", Func: "FileMode.IsDir"},
+		{Pkg: "io/fs", Func: "WalkDir", Oracle: true, Walk: "fn", DropParams: []string{"fsys"}},
+		{Pkg: "path/filepath", Func: "WalkDir", Oracle: true, Walk: "fn"},
+		{Pkg: ".../plugin", Func: "setExecutable", Oracle: true},
 		{Pkg: ".../plugin", Func: "(*CLIManager).List"},
 		{Pkg: ".../plugin", Func: "parsePluginFromDir"},
 		{Pkg: ".../internal/slices", Func: "ContainsAny"},
